@@ -50,7 +50,7 @@ Section Scan.
   (* what the scanner finds for a pattern of a given identity in a buffer
      (any function: the theorems hold for every matching semantics) *)
   Variable M : pident -> list Z -> mlist.
-  Variables (data : list Z) (globals : nat -> value) (others : nat -> bool) (fast : bool).
+  Variables (data : list Z) (globals : nat -> value) (others : nat -> bool).
 
   (* match lists of the whole compiled set, by pattern id *)
   Definition global_matches (tbl : list pident) (id : nat) : mlist :=
@@ -62,7 +62,7 @@ Section Scan.
     match nth_error ids i with Some id => id | None => length tbl end.
 
   Definition scan_env (pm : nat -> mlist) : env :=
-    mkEnv data (Z.of_nat (length data)) pm [] None others globals fast.
+    mkEnv data (Z.of_nat (length data)) pm [] None others globals.
 
   (* the value of the k-th rule's condition inside the compiled set: its
      pattern references are pattern ids *)
